@@ -121,6 +121,9 @@ type c18Case struct {
 	QuitAfter  int `json:"quit_after"`  // session ends after this many tenths of an interval (0 = never before the run ends)
 	RunFor     int `json:"run_for"`     // observation window in intervals
 	EndToEnd   bool `json:"end_to_end"` // real Client + scripted peer instead of the bare keepalive loop
+	// StreamClose (end to end only): the session ends because the server sends </stream:stream> and keeps the TCP
+	// connection open, instead of a cut of the connection
+	StreamClose bool `json:"stream_close,omitempty"`
 }
 
 func genC18(t *rapid.T) c18Case {
@@ -138,6 +141,9 @@ func genC18(t *rapid.T) c18Case {
 		}
 	}
 	c.EndToEnd = rapid.IntRange(0, 3).Draw(t, "e2e") == 0
+	if c.EndToEnd {
+		c.StreamClose = rapid.Bool().Draw(t, "streamClose")
+	}
 	return c
 }
 
@@ -236,6 +242,9 @@ func runC18(c c18Case) vh.Result {
 func runC18E2E(c c18Case) vh.Result {
 	var res vh.Result
 	res.Label("end-to-end")
+	if c.StreamClose {
+		res.Label("ended-by-stream-close")
+	}
 	interval := time.Duration(c.IntervalMs) * time.Millisecond
 	res.NonTrivial = true
 	var pconn *peer.Conn
@@ -250,7 +259,11 @@ func runC18E2E(c c18Case) vh.Result {
 		close(established)
 		go func() {
 			<-cut
-			pc.HalfClose()
+			if c.StreamClose {
+				pc.Send("</stream:stream>") // the socket stays open: only the stream has ended
+			} else {
+				pc.HalfClose()
+			}
 		}()
 		pc.Drain(30 * time.Second)
 	})
@@ -345,7 +358,7 @@ func runC18E2E(c c18Case) vh.Result {
 
 var c18 = vh.Define(&vh.Def[c18Case]{
 	Property: "C18", Name: "keepalive",
-	Rule: "interval 2-40 ms x {k-th keepalive write fails, k in 1-10 | session ends after a generated fraction of the interval (1-100 tenths) | steady} x {bare keepalive loop on a stub Transport | real Client whose Transport is wrapped (Ping fails at k) against the scripted peer}; oracle: n keepalives never take less than (n-1) intervals (a ticker never fires early: sound upper bound on the rate) at least one within 100 intervals + 3 s, each is a single newline on the wire, after the failing keepalive Close is called exactly once, no further keepalive follows, the loop returns and (end to end) the loss is reported by one error callback and one Disconnected event, no keepalive starts later than max(3 intervals, 100 ms) after the session ended and the loop returns; non-trivial = a failure index or an end time was drawn, or the end-to-end variant",
+	Rule: "interval 2-40 ms x {k-th keepalive write fails, k in 1-10 | session ends after a generated fraction of the interval (1-100 tenths) | steady} x {bare keepalive loop on a stub Transport | real Client whose Transport is wrapped (Ping fails at k) against the scripted peer, the session ending by a cut of the connection or by </stream:stream> on a connection that stays open}; oracle: n keepalives never take less than (n-1) intervals (a ticker never fires early: sound upper bound on the rate) at least one within 100 intervals + 3 s, each is a single newline on the wire, after the failing keepalive Close is called exactly once, no further keepalive follows, the loop returns and (end to end) the loss is reported by one error callback and one Disconnected event, no keepalive starts later than max(3 intervals, 100 ms) after the session ended and the loop returns; non-trivial = a failure index or an end time was drawn, or the end-to-end variant",
 	Quick: 160, Thorough: 2400, Journal: true,
 	Gen: genC18, Run: runC18,
 })
